@@ -383,7 +383,7 @@ class Gauss:
 
         elif elemType == ElemType.SEG3:
             if matrixType == MatrixType.rigi:
-                nPg = 1
+                nPg = 2
             elif matrixType == MatrixType.mass:
                 nPg = 3
             elif matrixType == MatrixType.beam:
@@ -396,7 +396,7 @@ class Gauss:
 
         elif elemType == ElemType.SEG4:
             if matrixType == MatrixType.rigi:
-                nPg = 2
+                nPg = 3
             elif matrixType == MatrixType.mass:
                 nPg = 4
             elif matrixType == MatrixType.beam:
@@ -439,7 +439,12 @@ class Gauss:
             xis, etas, weights = Gauss._Triangle(nPg)  # type: ignore [assignment]
 
         elif elemType == ElemType.TRI10:
-            nPg = 6
+            if matrixType == MatrixType.rigi:
+                nPg = 6
+            elif matrixType == MatrixType.mass:
+                nPg = 12
+            else:
+                raise ValueError("unknown matrixType")
             xis, etas, weights = Gauss._Triangle(nPg)  # type: ignore [assignment]
 
         elif elemType == ElemType.TRI15:
@@ -472,7 +477,12 @@ class Gauss:
             x, y, z, weights = Gauss._Tetrahedron(nPg)  # type: ignore [assignment]
 
         elif elemType == ElemType.TETRA10:
-            nPg = 4
+            if matrixType == MatrixType.rigi:
+                nPg = 4
+            elif matrixType == MatrixType.mass:
+                nPg = 15
+            else:
+                raise ValueError("unknown matrixType")
             x, y, z, weights = Gauss._Tetrahedron(nPg)  # type: ignore [assignment]
 
         elif elemType == ElemType.HEXA8:
@@ -492,7 +502,7 @@ class Gauss:
             x, y, z, weights = Gauss._Prism(nPg)  # type: ignore [assignment]
 
         elif elemType == ElemType.PRISM15:
-            nPg = 6
+            nPg = 21
             x, y, z, weights = Gauss._Prism(nPg)  # type: ignore [assignment]
 
         elif elemType == ElemType.PRISM18:
